@@ -579,11 +579,11 @@ class DiskFile(VirtualFileContainer):
         :param last_sector_bytes_used: the number of bytes used in the last sector
         """
         pointer = DiskConstants.DIR_OFFSET + (directory_entry_number * 32)
-        for letter in coco_file.name.ljust(8, " ").upper():
+        for letter in coco_file.name[:8].ljust(8, " ").upper():
             self.buffer[pointer] = ord(letter) if ord(letter) != 0x00 else 0x20
             pointer += 1
 
-        for letter in coco_file.extension.ljust(3, " ").upper():
+        for letter in coco_file.extension[:3].ljust(3, " ").upper():
             self.buffer[pointer] = ord(letter) if ord(letter) != 0x00 else 0x20
             pointer += 1
 
